@@ -705,7 +705,7 @@ func runC08(r *Run) {
 	for _, fc := range c08FrameCorpus() {
 		c08FrameOne(r, fc, "fix_copy_nested")
 	}
-	for i, n := 0, r.N(120, 1500); i < n; i++ {
+	for i, n := 0, r.N(120, 3000); i < n; i++ {
 		c08FrameOne(r, c08GenFrame(r.R), "fix_copy_nested")
 	}
 	safe := c08FrameDefect // today shared groups are sorted in place: share only values that the sort rewrites with themselves
@@ -717,7 +717,7 @@ func runC08(r *Run) {
 
 	// (ii) stress: first in a child process of this same binary
 	var st c08Stats
-	rounds := r.N(60, 400)
+	rounds := r.N(60, 1000)
 	crp := map[string]any{"mode": "child", "seed": r.Seed, "tier": r.Tier, "shared_safe": safe, "rounds": rounds}
 	cout, _, cerr := c08SpawnChild(false, r.Seed-1000003, r.Tier, safe, rounds, -1, time.Duration(r.N(120, 900))*time.Second)
 	if cerr != "" {
@@ -755,7 +755,7 @@ func runC08(r *Run) {
 	r.Dist["stress:payloads checked"] = st.Payloads
 
 	// (iii) the same under the race detector
-	rrounds := r.N(40, 300)
+	rrounds := r.N(40, 600)
 	out, reports, errs := c08SpawnRace(r.Seed, r.Tier, safe, rrounds, -1, time.Duration(r.N(120, 900))*time.Second)
 	rrp := map[string]any{"mode": "race", "seed": r.Seed, "tier": r.Tier, "shared_safe": safe, "rounds": rrounds}
 	if errs != "" {
